@@ -97,6 +97,9 @@ def run(seed_id, props):
             print(seed_id, p, "exit", rc, lines[:4])
     finally:
         sh(["git", "-C", REPO, "checkout", "--", "."])
+        # the translators rewrote Generated/*.lean from the patched tree: regenerate them from the restored one
+        sh(["python3", os.path.join(VERIF, "tools", "gen_lean_tables.py")])
+        sh(["python3", os.path.join(VERIF, "tools", "gen_footprints.py")])
     json.dump(meta, open(os.path.join(dst, "meta.json"), "w"), indent=1)
     return 0
 
